@@ -710,7 +710,8 @@ def step (cfg : Cfg) (s : State) : Label → Option State
       | _ => none
     else none
   | .daemonSpawn c =>
-    if s.rt ≠ .exited ∧ anyLiveWorker s = true then
+    -- (the daemon's task is created by a worker; its handler begins a few loop iterations later — the worker may be over)
+    if s.rt ≠ .exited ∧ 0 < s.nWorkers then
       some { s with dm := upd s.dm s.nDaemons .running, coop := upd s.coop s.nDaemons c,
                     stopReq := upd s.stopReq s.nDaemons false, nDaemons := s.nDaemons + 1 }
     else none
